@@ -14,16 +14,16 @@ case "$suite" in *"861 passed; 0 failed"*) s_ok=1;; *) s_ok=0;; esac
 suite2="(not run)"; s2_ok=1
 if [ -n "$FEAT" ]; then suite2=$(cargo test --offline --no-fail-fast $FEAT 2>&1 | grep -E "^test result" | head -1); case "$suite2" in *"0 failed"*) s2_ok=1;; *) s2_ok=0;; esac; fi
 mkdir -p tests; cp "$MD/demo.rs" tests/demo.rs
-cargo test --offline $FEAT --test demo >/tmp/confirm_with.$$ 2>&1; with_rc=$?
+RUSTFLAGS="${DEMO_RUSTFLAGS:-}" cargo test --offline $FEAT --test demo >/tmp/confirm_with.$$ 2>&1; with_rc=$?
 git checkout -q -- .
-cargo test --offline $FEAT --test demo >/tmp/confirm_without.$$ 2>&1; without_rc=$?
+RUSTFLAGS="${DEMO_RUSTFLAGS:-}" cargo test --offline $FEAT --test demo >/tmp/confirm_without.$$ 2>&1; without_rc=$?
 rm -f tests/demo.rs; rmdir tests 2>/dev/null
 with_line=$(grep -E "^test result" /tmp/confirm_with.$$ | tail -1); without_line=$(grep -E "^test result" /tmp/confirm_without.$$ | tail -1)
 rm -f /tmp/confirm_with.$$ /tmp/confirm_without.$$
 echo "CONFIRM $NAME: suite_with_patch=[$suite] serde_suite=[$suite2] demo_with_patch_rc=$with_rc [$with_line] demo_without_rc=$without_rc [$without_line]"
 if [ $s_ok = 1 ] && [ $s2_ok = 1 ] && [ $with_rc != 0 ] && [ $without_rc = 0 ]; then
   D="$HERE/seeded/$NAME"; mkdir -p "$D"; cp "$MD/patch.diff" "$MD/demo.rs" "$D/"; cp "$MD/notes.md" "$D/notes.md" 2>/dev/null
-  printf '%s\n' "suite with patch: $suite" "serde-json suite with patch: $suite2" "demo with patch: rc=$with_rc $with_line" "demo without patch: rc=$without_rc $without_line" > "$D/confirmation.txt"
+  printf '%s\n' "demo RUSTFLAGS: ${DEMO_RUSTFLAGS:-(none)}" "suite with patch: $suite" "serde-json suite with patch: $suite2" "demo with patch: rc=$with_rc $with_line" "demo without patch: rc=$without_rc $without_line" > "$D/confirmation.txt"
   echo "CONFIRMED $NAME"
 else
   echo "REJECTED $NAME"
